@@ -3,7 +3,9 @@ import os
 import re
 import time
 
-from vlib import common as C, verus_check as V, native
+from vlib import common as C, verus_check as V, native, layerc as LC
+from corpus import defs as D
+from checks import prop_generic as G
 
 PROP = "C11"
 UNITS = [("range_map_small", 9), ("range_map_insert", 14), ("range_map_insert_ranges", 15), ("range_map_remove_ranges", 17)]
@@ -34,8 +36,15 @@ def replay_search(deep):
 
 def main():
     t0 = time.time()
-    results = V.run_units(UNITS)
+    import concurrent.futures as cf
+    defs = D.by_prop(PROP, C.TIER)
+    with cf.ThreadPoolExecutor(max_workers=2) as ex:
+        fu = ex.submit(V.run_units, UNITS)
+        fc = ex.submit(LC.run_defs, defs, C.TIER)
+        results = fu.result()
+        crows = fc.result()
     summ = V.summarize(results)
+    c_lines, c_notes, c_und, c_samples, c_ok = G.judge_layer_c(PROP, crows)
     failed = [r for r in results if r["status"] == "fail"]
     undecided = [r for r in results if r["status"] == "undecided"]
     violations = 0
@@ -68,7 +77,20 @@ def main():
         C.say("UNDECIDED unit=%s reason=%s" % (r["unit"], r.get("reason", "")))
         if rc == C.EXIT_OK:
             rc = C.EXIT_UNDECIDED
+    # class expressions through the real macro: single-class lexers, one symbolic character over the whole scalar domain
+    lines += c_lines
+    violations += len(c_lines)
+    if c_lines:
+        rc = C.EXIT_VIOLATION
+    for n in c_notes:
+        C.say(n)
+    for u in c_und:
+        C.say("UNDECIDED " + u)
+        if rc == C.EXIT_OK:
+            rc = C.EXIT_UNDECIDED
     cov = {
+        "class_expressions_through_the_macro": {"tool": "kani 0.68 / cbmc 6.11", "definitions": c_samples, "verified": c_ok,
+            "note": "definitions with N=1 are loop-free up to the dispatch of one character and therefore complete for that definition (every scalar value); N>1 entries are bounded"},
         "obligations": summ["obligations"], "discharged": summ["discharged"],
         "checker_cmd": "per unit: " + "; ".join(r.get("cmd", "") for r in results) + "  (files generated from contracts/verus/*.vt + the snapshot of /repo)",
         "trusted_base": TRUSTED + summ["trusted_fragments"],
